@@ -12,7 +12,7 @@ APALACHE = shutil.which("apalache-mc") or "/opt/veriftools/apalache/bin/apalache
 
 
 def check(workdir, module, init, inv, length, cinit=None, timeout=1800, subst=None):
-    """Returns (holds, seconds).  `subst` = {regex: replacement} applied to a copy of the module (constants that Apalache
+    """Returns (holds, seconds).  `subst` = {literal text: replacement} applied to a copy of the module (constants that Apalache
     wants as definitions, or the deliberate mutation of a negative control)."""
     src = os.path.join(workdir, module + ".tla")
     name = module
@@ -20,10 +20,10 @@ def check(workdir, module, init, inv, length, cinit=None, timeout=1800, subst=No
         text = open(src).read()
         name = module + "X%d" % (abs(hash(tuple(sorted(subst.items())))) % 100000)
         text = text.replace("MODULE " + module, "MODULE " + name)
-        for pat, rep in subst.items():
-            text, n = re.subn(pat, rep, text)
-            if n == 0:
+        for pat, rep in subst.items():                      # literal text replacement
+            if pat not in text:
                 raise MachineryError("apalache substitution matched nothing: %r" % pat)
+            text = text.replace(pat, rep)
         src = os.path.join(workdir, name + ".tla")
         with open(src, "w") as f:
             f.write(text)
